@@ -4,7 +4,7 @@ id=$1; k=$2; src=/tmp/mut/out/$id/$k; wt=/tmp/mut/confirm_$id_$k
 export GOFLAGS=-mod=mod GOPROXY=off GOSUMDB=off
 p=$src/patch.diff; [ -f $src/patch.ported.diff ] && p=$src/patch.ported.diff
 meta=$src/meta.json
-demo_path=$(python3 -c "import json;print(json.load(open('$meta')).get('demo_path_in_tree','knx/demo_test.go'))")
+demo_path=$(python3 -c "import json;print(json.load(open('$meta')).get('demo_path_in_tree','knx/demo_test.go').split()[0])")
 demo_cmd=$(python3 -c "import json;print(json.load(open('$meta')).get('demo_cmd',''))")
 demo_file=$(ls $src/*_test.go 2>/dev/null | head -1)
 rm -rf $wt; git -C /repo worktree add -q --detach $wt HEAD || exit 3
